@@ -8,6 +8,7 @@
 // Single-threaded use only (container engines).
 #pragma once
 #include "rt.h"
+#include <initializer_list>
 #include <vector>
 
 namespace rt {
@@ -46,6 +47,11 @@ public:
 
     Tracked() : m_magic(kTrackedMagic), m_oid(R().add(LifeRegistry::Live, kDefault)), m_heap(mk()) {}
     explicit Tracked(int64_t v) : m_magic(kTrackedMagic), m_oid(R().add(LifeRegistry::Live, v)), m_heap(mk()) {}
+    // Two constructors that a careless T{args...} instead of T(args...) would confuse (like std::vector<int>(3, 30)
+    // versus std::vector<int>{3, 30}): the values they produce differ.
+    Tracked(int64_t a, int64_t b) : m_magic(kTrackedMagic), m_oid(R().add(LifeRegistry::Live, pairValue(a, b))), m_heap(mk()) {}
+    Tracked(std::initializer_list<int64_t> il) : m_magic(kTrackedMagic), m_oid(R().add(LifeRegistry::Live, -4000000 - (int64_t) il.size())), m_heap(mk()) {}
+    static int64_t pairValue(int64_t a, int64_t b) { return a * 1000003 + b; }
 
     Tracked(const Tracked &o) : m_magic(kTrackedMagic) {
         uint8_t s = o.check("copy-from");
